@@ -80,7 +80,8 @@ class Sim:
             for p, i in enumerate(order):
                 self.threads[i].prio = len(order) + 10 - p
             d = cfg.get("pct_depth", 2)
-            self.change_points = sorted(int(10 ** self.rng.uniform(2, 6.2)) for _ in range(max(0, d - 1)))
+            hi = 4.3 if cfg.get("warm") else 6.2
+            self.change_points = sorted(int(10 ** self.rng.uniform(1, hi)) for _ in range(max(0, d - 1)))
             self.low = 0
         else:
             self.change_points = []
@@ -400,6 +401,12 @@ def run(req):
     scripts = rec["scripts"]
     root = os.path.realpath(os.environ.get("VERIF_SQLGLOT_ROOT", "/repo"))
     scope = (root + "/sqlglot/", "<frozen importlib")
+    if cfg.get("warm"):
+        # steady-state population: every call of the run is executed once, sequentially and untraced, before the threads
+        # start, so that the schedule explores races in warm code (per-call scratch state shared between threads)
+        for s_ in scripts:
+            for c in s_:
+                run_call(c)
     sim = Sim(cfg, scripts, rec.get("schedule"), scope, log_events=bool(req.get("log_events")))
     sim.run(run_call)
     out = {
